@@ -181,6 +181,7 @@ def s3_lock(sp, n=2, K=2, pause_max_ms=130000, heartbeat=False, timeout=1.0):
                     sp.require(snot(sand(valid_i, valid_j)), f"s3lock n{n}: contenders {i} and {j} are both inside their critical sections with "
                                f"valid leases (schedule {sc.trace_str()})", {"sig": f"s3lock:two-valid-holders:{_how(e, key, i)}"})
                 inside[i] = True
+                probes = sp.choose(2, name=f"probes_is_held{i}")  # a holder may or may not re-check ownership before releasing
                 w.point("cs")
                 now2 = w.clock.peek()
                 for j in list(inside):
@@ -189,7 +190,7 @@ def s3_lock(sp, n=2, K=2, pause_max_ms=130000, heartbeat=False, timeout=1.0):
                         vj = (now2 - _last_write_ms(e, key, j)) <= lease_ms
                         sp.require(snot(sand(vi, vj)), f"s3lock n{n}: contenders {i} and {j} are both inside their critical sections with valid "
                                    f"leases (schedule {sc.trace_str()})", {"sig": f"s3lock:two-valid-holders-in-cs:{_how(e, key, i)}"})
-                held = p.is_held()
+                held = p.is_held() if probes else None
                 content = e.s3.o.get(key, (None,))[0]
                 if held:
                     lw = None
@@ -200,7 +201,7 @@ def s3_lock(sp, n=2, K=2, pause_max_ms=130000, heartbeat=False, timeout=1.0):
                                f"last written by contender {lw} (schedule {sc.trace_str()})", {"sig": "s3lock:is_held-true-not-owner"})
                 inside.pop(i, None)
                 p.release()
-                return "ok" if held else "lost"
+                return "ok" if held or held is None else "lost"
             return fn
 
         for i in range(n):
@@ -262,14 +263,21 @@ def _last_write_ms(e, key, j):
 
 
 def _how(e, key, i):
-    """classify HOW the lock object became free for contender i: did some contender's release() delete a lock object that
-    carried ANOTHER contender's id (read-own-id -> lease lapses -> taken over -> unconditional DELETE)?"""
+    """classify HOW the lock object became free for contender i.  The known defect (KF-C19-1): a release() that READ ITS OWN ID,
+    was then paused past its lease, and whose DELETE removed the lock object of the contender that had taken over meanwhile.
+    A release that deletes a foreign lock WITHOUT having just read its own id is a different (worse) defect."""
     ids = getattr(e, "lock_ids", {})
-    for (st, lbl, k, a) in e.s3.req_log:
-        if k == key and lbl == "del>":
-            before = e.s3.content_at(key, st - 1)
-            if before is not None and a in ids and before != ids[a]:
-                return "release-deleted-foreign-lock"
+    reqs = [r for r in e.s3.req_log if r[2] == key]
+    for n, (st, lbl, k, a) in enumerate(reqs):
+        if lbl != "del>":
+            continue
+        before = e.s3.content_at(key, st - 1)
+        if before is None or a not in ids or before == ids[a]:
+            continue
+        prev = [r for r in reqs[:n] if r[3] == a]
+        if prev and prev[-1][1] == "get>" and e.s3.content_at(key, prev[-1][0] - 1) == ids[a]:
+            return "release-deleted-foreign-lock"
+        return "release-deleted-foreign-lock-without-ownership-check"
     return "other"
 
 
